@@ -193,7 +193,10 @@ def build_cases(tier, wd):
                  "<mn>1</mn>", "<mn>234</mn>", "<mi>a</mi>", "<mi>arc</mi>", "<mi>sin</mi>", "<mi>d</mi>", "<mi>x</mi>", "<mi>A</mi>", "<mi>B</mi>", "<mtext>cm</mtext>",
                  # scripts on an empty base (prescripts in the making) and scripts whose base is not a token
                  "<msub><mrow/><mi>a</mi></msub>", "<msup><mi/><mn>2</mn></msup>", "<msubsup><mrow/><mn>1</mn><mn>2</mn></msubsup>",
-                 "<msup><mrow><mo>(</mo><mi>x</mi><mo>+</mo><mi>y</mi><mo>)</mo></mrow><mn>2</mn></msup>", "<msub><mfrac><mi>x</mi><mi>y</mi></mfrac><mn>5</mn></msub>"]
+                 "<msup><mrow><mo>(</mo><mi>x</mi><mo>+</mo><mi>y</mi><mo>)</mo></mrow><mn>2</mn></msup>", "<msub><mfrac><mi>x</mi><mi>y</mi></mfrac><mn>5</mn></msub>",
+                 # fences, bare and carrying a script or a limit (6ce108d, abaf8db), and scripts that are all 'none' (bfa1c9a)
+                 "<mo>(</mo>", "<mo>)</mo>", "<mo>[</mo>", "<msub><mo>[</mo><mn>3</mn></msub>", "<munder><mo>‖</mo><mn>8</mn></munder>", "<msup><mo>)</mo><mn>2</mn></msup>",
+                 "<mmultiscripts><mi>n</mi><none/><none/></mmultiscripts>", "<mmultiscripts><mi>n</mi><none/><mrow/></mmultiscripts>"]
     followers = ["", "<mi>z</mi>", "<mo>+</mo><mi>z</mi>", "<mfrac><mn>1</mn><mn>2</mn></mfrac>", "<msup><mi>x</mi><mn>2</mn></msup>",
                  "<mrow><mi>p</mi><mo>+</mo><mi>q</mi></mrow>", "<msqrt><mi>y</mi></msqrt>", "<mfenced><mi>u</mi><mi>v</mi></mfenced>"]
     leaders = ["", "<mn>3</mn><mo>+</mo>", "<mi>k</mi>"]
@@ -204,7 +207,10 @@ def build_cases(tier, wd):
     runs += [[r3.choice(mergeable) for _ in range(r3.choice([3, 3, 4, 5]))] for _ in range(1500 if tier == "quick" else 20000)]
     for ri, run in enumerate(runs):
         combos = [(f, l, h) for f in followers for l in leaders for h in hosts]
-        for f, l, h in r3.sample(combos, 24 if tier == "thorough" and ri < len(mergeable) ** 2 else 3):
+        picked = r3.sample(combos, 24 if tier == "thorough" and ri < len(mergeable) ** 2 else 3)
+        if ri < len(mergeable) ** 2:
+            picked.append(("", "", hosts[0]))           # every pair also as the ONLY content of math (a98a6d6)
+        for f, l, h in picked:
             cases.append({"mathml": h.format(l + "".join(run) + f), "origin": "sibling-merge-row", "idmode": "none", "spicy": True, "locale": None})
     # look-ahead rows: two tokens, an operator, then a NON-token sibling - the clean-up predicates that peek at the next two or three
     # siblings (mixed fractions, function application, units) must not alter what they only inspect (7ddf993): exhaustive over a
